@@ -11,7 +11,7 @@ EXPECT_PROBES = ["reject:length", "reject:field-overflow", "reject:off-curve", "
 
 MALFORMED = ["truncate", "extend", "pad_leading_zero", "strip_leading", "noncanon", "torsion_shift",
              "small_order", "off_curve", "field_overflow", "non_member", "rand", "empty", "bitflip",
-             "substitute"]
+             "substitute", "textform"]
 
 
 def gen_body(rng, gspec):
@@ -66,6 +66,9 @@ def gen_body(rng, gspec):
     elif kind == "substitute":
         f["elem"] = rng.choice(["identity", "identity", "base", "M", "N", "S", "kG"])
         f["k"] = rng.randrange(0, 50)
+    elif kind == "textform":
+        f["how"] = rng.choice(["hex", "HEX", "base64", "utf8", "utf8", "utf8_whole"])
+        f["base_k"] = rng.randrange(1, 5000)
     return f
 
 
